@@ -150,8 +150,19 @@ impl<'a> Gen<'a> {
       }
       Ty::M(k, r, c) => {
         let tot = r * c; let l = lit_scalar(k, self.rng);
-        let form = self.rng.below(7);
+        let form = self.rng.below(17);
         match form {
+          // range subscripts (1-D and 2-D), whole rows, masks, vector sources and the other op-assignments
+          7 if tot >= 3 => { let a0 = 1 + self.rng.below(tot as u64 - 1); let b0 = a0 + 1 + self.rng.below(tot as u64 - a0); push!(self, "{}[{}..={}] = {}", a.name, a0, b0, l); self.tag(&format!("ixassign-range-{}", k)); }
+          8 if tot >= 3 => { let a0 = 1 + self.rng.below(tot as u64 - 1); push!(self, "{}[{}..{}] = {}", a.name, a0, tot + 1, l); self.tag(&format!("ixassign-xrange-{}", k)); }
+          9 if r > 1 && c > 1 => { push!(self, "{}[1..={},{}] = {}", a.name, r, 1 + self.rng.below(c as u64), l); self.tag(&format!("ixassign-rs-{}", k)); }
+          10 if r > 1 && c > 1 => { push!(self, "{}[{},1..={}] = {}", a.name, 1 + self.rng.below(r as u64), c, l); self.tag(&format!("ixassign-sr-{}", k)); }
+          11 if r > 1 && c > 1 => { push!(self, "{}[1..=2,{}..={}] = {}", a.name, c - 1, c, l); self.tag(&format!("ixassign-rr-{}", k)); }
+          12 if r > 1 && c > 1 => { push!(self, "{}[{},:] = {}", a.name, 1 + self.rng.below(r as u64), l); self.tag(&format!("ixassign-sa-{}", k)); }
+          13 if tot >= 2 => { let m: Vec<&str> = (0..tot).map(|i| if i % 2 == 0 { "true" } else { "false" }).collect(); push!(self, "{}[[{}]] = {}", a.name, m.join(" "), l); self.tag(&format!("ixassign-mask-{}", k)); }
+          14 if tot >= 2 => { let l2 = lit_scalar(k, self.rng); push!(self, "{}[[{} 1]] = [{} {}]", a.name, tot, l, l2); self.tag(&format!("ixassign-vecsrc-{}", k)); }
+          15 if matches!(k, "f64" | "u8" | "i64") && tot >= 3 => { let op = *self.rng.pick(&["+=", "*=", "-=", "/="]); let op = if k != "f64" && matches!(op, "-=" | "/=") { "+=" } else { op }; push!(self, "{}[2..={}] {} {}", a.name, tot, op, l); self.tag(&format!("ixopassign-range-{}", k)); }
+          16 if matches!(k, "f64" | "u8" | "i64") => { let op = *self.rng.pick(&["+=", "*="]); push!(self, "{} {} {}", a.name, op, l); self.tag(&format!("opassign-matrix-scalar-{}", k)); }
           0 => { push!(self, "{}[{}] = {}", a.name, 1 + self.rng.below(tot as u64), l); self.tag(&format!("ixassign-s-{}", k)); }
           1 if r > 1 && c > 1 => { push!(self, "{}[{},{}] = {}", a.name, 1 + self.rng.below(r as u64), 1 + self.rng.below(c as u64), l); self.tag(&format!("ixassign-ss-{}", k)); }
           2 if r > 1 && c > 1 => { push!(self, "{}[:,{}] = {}", a.name, 1 + self.rng.below(c as u64), l); self.tag(&format!("ixassign-as-{}", k)); }
@@ -261,7 +272,7 @@ pub fn construct_sweep(rng: &mut Rng) -> Vec<Prog> {
     for (r, c) in [(1usize, 3usize), (3, 1), (2, 2), (2, 3), (4, 1), (1, 4), (4, 2), (5, 1)] {
       { let mut g = Gen::new(rng); g.define_matrix_literal(mk, r, c); g.finish(); out.push(g.prog); }
       for _ in 0..6 { let mut g = Gen::new(rng); g.define_matrix_literal(mk, r, c); g.index_read(); g.finish(); out.push(g.prog); }
-      for _ in 0..5 { let mut g = Gen::new(rng); g.define_matrix_literal(mk, r, c); g.vars[0].mutable = true; let s = g.prog.stmts[0].clone(); if !s.starts_with('~') { g.prog.stmts[0] = format!("~{}", s); } g.assign(); out.push(g.prog); }
+      for _ in 0..12 { let mut g = Gen::new(rng); g.define_matrix_literal(mk, r, c); g.vars[0].mutable = true; let s = g.prog.stmts[0].clone(); if !s.starts_with('~') { g.prog.stmts[0] = format!("~{}", s); } g.assign(); out.push(g.prog); }
       if matches!(mk, "f64" | "u8" | "i64") { for _ in 0..3 { let mut g = Gen::new(rng); g.define_matrix_literal(mk, r, c); g.matrix_binop(); g.finish(); out.push(g.prog); } }
     }
   }
